@@ -2802,6 +2802,8 @@ impl StorageEngine {
 
     /// Background thread for cleaning up expired keys in sharded structure
     fn expiration_cleanup_loop(engine: Arc<StorageEngine>) {
+        // the sweeper sees the command thread's clock: frozen while a script or a transaction runs
+        crate::storage::clock::follow();
         loop {
             thread::sleep(Duration::from_secs(1)); // Check every second
             #[cfg(feature = "verif")]
